@@ -1,6 +1,7 @@
 """C15 - learner-to-transformer wrappers are transparent."""
 import z3
 from pyvc.api import Contract, contract
+from contracts._frames import query_frame
 from pyvc.values import Obj, NdArr, Opaque, z
 from pyvc import models
 from pyvc.engine import ExternFn, LambdaFn
@@ -70,6 +71,7 @@ class SetMethod(Contract):
 
 
 @contract(SK + "sklearn_base_transform_learner.py::SkBaseTransformLearner.transform", "C15")
+@query_frame("self")
 class LearnerTransform(Contract):
     variants = ["predict", "predict_proba", "decision_function", "transform"]
 
@@ -156,6 +158,7 @@ def _stack(E, k):
 
 
 @contract(SK + "sklearn_base_transform_stacking.py::SkBaseTransformStacking.transform", "C15")
+@query_frame("self")
 class StackingTransform(Contract):
     variants = [1, 2, 3]
 
@@ -212,6 +215,7 @@ class StackingFit(Contract):
 
 
 @contract(MM + "transfer_transformer.py::TransferTransformer.transform", "C15")
+@query_frame("self")
 class TransferTransform(Contract):
     variants = ["predict", "predict_proba", "decision_function", "transform"]
 
